@@ -695,6 +695,10 @@ class Engine(object):
                     npaths += 1
                     self.stats['paths'] += 1
                     if npaths > path_limit:
+                        if rules:
+                            # a rule walk that is cut short would pass vacuously for the rest
+                            from . import common
+                            raise common.AnalysisBroken('path limit %d exceeded while walking %s' % (path_limit, f.name))
                         return False
                     _, ek, s2, rv = item
                     for i, r in enumerate(rules):
